@@ -6,25 +6,30 @@
         | iw:<v>       SETTINGS INITIAL_WINDOW_SIZE
         | mf:<m>       SETTINGS MAX_FRAME_SIZE
         | p | r        pause_writing / resume_writing
+        | rst          Stream.reset_nowait() on a stream of the connection that is not a sender
+        | rp           the transport resumes and pauses again from inside the flush write of
+                       resume_writing (only if h2 has something queued)
         | run:<i>      one loop iteration of sender i
         | q            FIFO run to quiescence
         | qp:<k>       the same, the transport pausing from inside its k-th write (k >= 1)
    answer: one record per q/qp, joined by ';':
-        <i>:<off>:<len>,...|<pcs>|<cw>|<win_1>,...|<mf>|<wready>|<broken>
+        <i>:<off>:<len>,...|<pcs>|<cw>|<win_1>,...|<mf>|<wready>|<broken>|<transport paused>|<h2 has queued frames>
      pcs: one letter per sender  T C W(aitWrite) U(WaitWindow = waits for an update) D F
-   Nothing is computed here: the driver only parses, calls step / fifo_result and prints. *)
+   Nothing is computed here: the driver only parses, calls cstep / cfifo and prints. *)
 let zi = z_of_int
 let iz = int_of_z
 
 let parse_op w =
   match String.split_on_char ':' w with
-  | ["ws"; i; k] -> `Op (WinStream (nat_of_int (int_of_string i), zi (int_of_string k)))
-  | ["wc"; k] -> `Op (WinConn (zi (int_of_string k)))
-  | ["iw"; v] -> `Op (SetInitWin (zi (int_of_string v)))
-  | ["mf"; m] -> `Op (SetMaxFrame (zi (int_of_string m)))
-  | ["p"] -> `Op Pause
-  | ["r"] -> `Op Resume
-  | ["run"; i] -> `Op (Run (nat_of_int (int_of_string i)))
+  | ["rst"] -> `Op ResetAux
+  | ["rp"] -> `Op ResumeP
+  | ["ws"; i; k] -> `Op (Op (WinStream (nat_of_int (int_of_string i), zi (int_of_string k))))
+  | ["wc"; k] -> `Op (Op (WinConn (zi (int_of_string k))))
+  | ["iw"; v] -> `Op (Op (SetInitWin (zi (int_of_string v))))
+  | ["mf"; m] -> `Op (Op (SetMaxFrame (zi (int_of_string m))))
+  | ["p"] -> `Op (Op Pause)
+  | ["r"] -> `Op (Op Resume)
+  | ["run"; i] -> `Op (Op (Run (nat_of_int (int_of_string i))))
   | ["q"] -> `Q None
   | ["qp"; k] -> `Q (Some (nat_of_int (int_of_string k - 1)))
   | _ -> failwith ("bad op " ^ w)
@@ -37,12 +42,14 @@ let show_chunks cs =
   String.concat "," (List.map (fun c ->
     Printf.sprintf "%d:%d:%d" (int_of_nat c.c_sid) (iz c.c_off) (iz c.c_len)) cs)
 
-let show s cs =
-  Printf.sprintf "%s|%s|%d|%s|%d|%s|%s" (show_chunks cs)
+let show c cs =
+  let s = c.core in
+  Printf.sprintf "%s|%s|%d|%s|%d|%s|%s|%s|%s" (show_chunks cs)
     (String.concat "" (List.map (fun x -> pc_letter x.s_pc) s.senders))
     (iz s.cwin)
     (String.concat "," (List.map (fun x -> string_of_int (iz x.s_win)) s.senders))
-    (iz s.mfs) (word_of_bool s.wready) (word_of_bool s.broken)
+    (iz s.mfs) (word_of_bool s.wready) (word_of_bool s.broken) (word_of_bool c.tpaused)
+    (word_of_bool c.hq)
 
 let handle ws =
   match ws with
@@ -54,13 +61,13 @@ let handle ws =
     let cfg, rest = take n rest [] in
     (match rest with
      | cw :: iw :: mf :: ops ->
-       let s = ref (init cfg (zi (int_of_string cw)) (zi (int_of_string iw)) (zi (int_of_string mf))) in
+       let s = ref (cinit cfg (zi (int_of_string cw)) (zi (int_of_string iw)) (zi (int_of_string mf))) in
        let pending = ref [] in       (* chunks emitted by explicit run ops since the last q *)
        let out = ref [] in
        List.iter (fun w ->
          match parse_op w with
-         | `Op o -> let (s1, cs) = step !s o in s := s1; pending := !pending @ cs
-         | `Q b -> let (s1, cs) = fifo_result b !s in
+         | `Op o -> let (s1, cs) = cstep !s o in s := s1; pending := !pending @ cs
+         | `Q b -> let (s1, cs) = cfifo b !s in
                    s := s1; out := show s1 (!pending @ cs) :: !out; pending := []) ops;
        String.concat ";" (List.rev !out)
      | _ -> failwith "short case")
